@@ -6,49 +6,54 @@ import Banyan.Lemmas.C04Inv10
 namespace Banyan.C04
 open Banyan.FS
 
-theorem flushT1_ids (t : Tbl) : (flushT1 t).parts.map (·.id) = t.parts.map (·.id) := by
-  simp [flushT1, List.map_map, Function.comp_def]
+/-- assembling `OpOK` from the two halves of an operation -/
+theorem opOK_intro {tb : Tbl} {o : Op} {s : St} (pre post : List Step) (tb' : Tbl)
+    (hst : opSteps tb o = (pre ++ post, tb')) (hpre : opPre tb o = pre) (hpost : opPost tb o = post)
+    (hle : (fileBatches tb).length ≤ (fileBatches tb').length)
+    (hA : Along (InvQ (AccAt tb.acked (fileBatches tb).length)) s pre)
+    (hB : Along (InvQ (AccAt tb.acked (fileBatches tb').length)) (run s pre) post)
+    (hfin : ∃ G', Inv G' (run (run s pre) post) ∧ Link G' tb') : OpOK tb o s := by
+  unfold OpOK
+  rw [hst, hpre, hpost]
+  refine ⟨along_append hA (along_mono ?_ hB), hB, hle, by rw [run_append]; exact hfin⟩
+  rintro _ ⟨G', hi, hq⟩
+  exact ⟨G', hi, accAt_mono hle hq⟩
 
-theorem mem_flushT1_parts (t : Tbl) (p : PartG) :
-    p ∈ (flushT1 t).parts ↔ ∃ p0 ∈ t.parts, p = { p0 with mem := false } := by
-  simp only [flushT1, List.mem_map]
-  constructor
-  · rintro ⟨p0, h, rfl⟩; exact ⟨p0, h, rfl⟩
-  · rintro ⟨p0, h, rfl⟩; exact ⟨p0, h, rfl⟩
-
-theorem nodup_map_filter {α β : Type} (f : α → β) (p : α → Bool) (l : List α) (h : (l.map f).Nodup) :
-    ((l.filter p).map f).Nodup := by
-  induction l with
-  | nil => simp
-  | cons a l ih =>
-    simp only [List.map_cons, List.nodup_cons] at h
-    by_cases hp : p a = true
-    · rw [List.filter_cons_of_pos hp, List.map_cons, List.nodup_cons]
-      refine ⟨?_, ih h.2⟩
-      intro hm
-      obtain ⟨b, hb, hfb⟩ := List.mem_map.1 hm
-      exact h.1 (List.mem_map.2 ⟨b, (List.mem_filter.1 hb).1, hfb⟩)
-    · rw [List.filter_cons_of_neg hp]; exact ih h.2
-
-theorem bool_eq_false_of_ne_true {b : Bool} (h : b = true → False) : b = false := by
-  cases b <;> simp at h ⊢
+/-- an operation that does nothing -/
+theorem opOK_noop {G : Ghost} {s : St} {tb : Tbl} {o : Op} (h : Inv G s) (hL : Link G tb)
+    (hst : opSteps tb o = ([], tb)) (hpre : opPre tb o = []) (hpost : opPost tb o = []) : OpOK tb o s := by
+  have hacc := acc_of_link h.gwf.partIds hL
+  exact opOK_intro [] [] tb hst hpre hpost (Nat.le_refl _) (along_nil ⟨G, h, hacc⟩) (along_nil ⟨G, h, hacc⟩)
+    ⟨G, h, hL⟩
 
 theorem op_flush {G : Ghost} {s : St} {tb : Tbl} (h : Inv G s) (hL : Link G tb) : OpOK tb .flush s := by
-  unfold OpOK
   by_cases hem : (tb.parts.filter (·.mem)).isEmpty = true
-  · rw [opSteps_flush, if_pos hem]
-    exact ⟨along_nil ⟨G, h⟩, G, h, hL⟩
-  · rw [opSteps_flush, if_neg hem]
-    show Along _ s (_ ++ _) ∧ ∃ G', Inv G' (run s (_ ++ _)) ∧ Link G' (publish (flushT1 tb)).2
+  · exact opOK_noop h hL (by rw [opSteps_flush, if_pos hem]) (by rw [opPre_flush, if_pos hem])
+      (by rw [opPost_flush, if_pos hem])
+  · have hacc0 := acc_of_link h.gwf.partIds hL
     -- flush every memory part
     have hmemsub : ∀ p ∈ tb.parts.filter (·.mem), p ∈ tb.parts ∧ p.mem = true := by
       intro p hp; exact List.mem_filter.1 hp
-    obtain ⟨hA1, G1, hE1, hPA⟩ := flushMany_along (tb.parts.filter (·.mem)) G s h
+    obtain ⟨hA1, G1, hE1, hPA, hacc1⟩ := flushMany_along (AccAt tb.acked (fileBatches tb).length)
+      (fun d G1 => PartsAdded G G1 (d.map (fun p => (p.id, p.batches))) ∧
+        AccAt tb.acked (fileBatches tb).length G1)
+      (tb.parts.filter (·.mem)) (fun _ _ hq => hq.2)
+      (fun d p rest G1 hM hq hnd hfr ps h1 h2 h3 h4 h5 => flush_step_acc hL hnd hM hq.1 hq.2 hfr ps h1 h2 h3 h4 h5)
+      (tb.parts.filter (·.mem)) [] G s (by simp) h ⟨partsAdded_refl G, hacc0⟩
       (nodup_map_filter _ _ _ hL.idsNodup)
       (fun p hp => hL.memFresh p (hmemsub p hp).1 (hmemsub p hp).2)
     obtain ⟨s1, hs1⟩ : ∃ s1, s1 = run s ((tb.parts.filter (·.mem)).flatMap (fun p => flushPart p.id p.batches)) :=
       ⟨_, rfl⟩
     rw [← hs1] at hE1
+    have htb' : TB (publish (flushT1 tb)).2 := tb_flush hL.tbl
+    have hnomem : ∀ p ∈ (publish (flushT1 tb)).2.parts, p.mem = false := by
+      intro p hp
+      rw [publish_parts] at hp
+      obtain ⟨p0, _, rfl⟩ := (mem_flushT1_parts tb p).1 hp
+      rfl
+    have hn1 : (fileBatches (publish (flushT1 tb)).2).length = tb.acked.length := htb'.len_all hnomem
+    have hle : (fileBatches tb).length ≤ (fileBatches (publish (flushT1 tb)).2).length := by
+      rw [hn1]; exact hL.tbl.len_le
     -- the parts of the new ghost
     have hnotDying : ∀ id ∈ (flushT1 tb).ids, ∀ ps ∈ G1.parts, ps.id = id → ps.dying = false := by
       intro id hid ps hps hpid
@@ -67,12 +72,36 @@ theorem op_flush {G : Ghost} {s : St} {tb : Tbl} (h : Inv G s) (hL : Link G tb) 
       have := hL.epochBound ms hms
       show ms.epoch < tb.epoch + 1
       omega
-    obtain ⟨hA2, hE2⟩ := publish_ok (t1 := flushT1 tb) hE1 hfreshE
+    have hknown1 : ∀ p ∈ (flushT1 tb).parts, p.mem = false →
+        ∃ ps ∈ G1.parts, ps.id = p.id ∧ ps.bat = p.batches ∧ ps.durable = true ∧ ps.dying = false := by
+      intro p hp _
+      obtain ⟨p0, hp0, rfl⟩ := (mem_flushT1_parts tb p).1 hp
+      by_cases hm : p0.mem = true
+      · obtain ⟨p', hp', hid, hbat, _, hdur, hnd⟩ := hPA.added (p0.id, p0.batches)
+          (List.mem_map.2 ⟨p0, List.mem_filter.2 ⟨hp0, hm⟩, rfl⟩)
+        exact ⟨p', hp', hid, hbat, hdur, hnd⟩
+      · obtain ⟨ps, hps, h1, h2, h3, h4⟩ := hL.file_ghost hp0 (bool_eq_false_of_ne_true hm)
+        exact ⟨ps, hPA.old ps hps, h1, h2, h3, h4⟩
+    have hmemFresh1 : ∀ p ∈ (flushT1 tb).parts, p.mem = true → p.id ∉ G1.parts.map (·.id) := by
+      intro p hp hmm
+      obtain ⟨p0, _, rfl⟩ := (mem_flushT1_parts tb p).1 hp
+      cases hmm
+    obtain ⟨hA2, hB, hE2⟩ := publish_ok (t1 := flushT1 tb) (n1 := (fileBatches (publish (flushT1 tb)).2).length)
+      hE1 hacc1 hle hfreshE
       (by rw [hPA.floor]; exact hL.floorLink)
       (by show tb.liveEpoch < tb.epoch + 1; have := hL.liveBound; omega)
-      hL.deletableNil hnotDying
-    refine ⟨along_append hA1 (by rw [← hs1]; exact hA2), _, by rw [run_append, ← hs1]; exact hE2, ?_⟩
-    apply link_after_publish hE1.gwf.manEpochs
+      hL.deletableNil hnotDying (by rw [flushT1_ids]; exact hL.idsNodup) hmemFresh1 hknown1
+      (by have := htb'.file; rw [fileBatches_congr (publish_parts _)] at this ⊢; exact this)
+      (by rw [hn1]; exact Nat.le_refl _)
+    refine opOK_intro
+      ((tb.parts.filter (·.mem)).flatMap (fun p => flushPart p.id p.batches) ++ publishPre (flushT1 tb))
+      (publishPost (flushT1 tb)) (publish (flushT1 tb)).2
+      (by rw [opSteps_flush, if_neg hem, publish_steps, List.append_assoc])
+      (by rw [opPre_flush, if_neg hem]) (by rw [opPost_flush, if_neg hem]) hle
+      (along_append hA1 (by rw [← hs1]; exact hA2))
+      (by rw [run_append, ← hs1]; exact hB)
+      ⟨_, by rw [run_append, ← hs1, ← run_append, ← publish_steps]; exact hE2, ?_⟩
+    apply link_after_publish
     · intro ps hps
       show ps.id ≤ tb.curPartID
       rcases hPA.cases ps hps with hold | ⟨x, hx, hid, _⟩
@@ -83,17 +112,25 @@ theorem op_flush {G : Ghost} {s : St} {tb : Tbl} (h : Inv G s) (hL : Link G tb) 
       obtain ⟨p0, hp0, rfl⟩ := (mem_flushT1_parts tb p).1 hp
       exact hL.idsBound p0 hp0
     · rw [flushT1_ids]; exact hL.idsNodup
-    · intro p hp hmm
-      obtain ⟨p0, _, rfl⟩ := (mem_flushT1_parts tb p).1 hp
-      cases hmm
-    · intro p hp _
+    · exact hmemFresh1
+    · intro p hp hm
+      obtain ⟨ps, hps, h1, _, _, h4⟩ := hknown1 p hp hm
+      exact ⟨ps, hps, h1, h4⟩
+    · intro p hp _ ps hps hpid
       obtain ⟨p0, hp0, rfl⟩ := (mem_flushT1_parts tb p).1 hp
-      by_cases hm : p0.mem = true
-      · obtain ⟨p', hp', hid, _, _, _, hnd⟩ := hPA.added (p0.id, p0.batches)
-          (List.mem_map.2 ⟨p0, List.mem_filter.2 ⟨hp0, hm⟩, rfl⟩)
-        exact ⟨p', hp', hid, hnd⟩
-      · obtain ⟨ps, hps, hid, hnd⟩ := hL.fileKnown p0 hp0 (bool_eq_false_of_ne_true hm)
-        exact ⟨ps, hPA.old ps hps, hid, hnd⟩
+      rcases hPA.cases ps hps with hold | ⟨x, hx, hxid, hxbat, hr, hdur, _⟩
+      · have hm : p0.mem = false := by
+          apply bool_eq_false_of_ne_true
+          intro hm
+          exact hL.memFresh p0 hp0 hm (List.mem_map.2 ⟨ps, hold, hpid⟩)
+        exact hL.fileFull p0 hp0 hm ps hold hpid
+      · obtain ⟨q, hq, rfl⟩ := List.mem_map.1 hx
+        have : q = p0 := eq_of_nodup_map (·.id) tb.parts hL.idsNodup (hmemsub q hq).1 hp0 (by
+          have hx' : ps.id = q.id := hxid
+          show q.id = p0.id
+          rw [← hx', hpid])
+        subst this
+        exact ⟨hr, hdur, hxbat⟩
     · intro id hid
       obtain ⟨⟨ps, hps, hpid, hnd⟩, hn⟩ := hL.zombKnown id hid
       exact ⟨⟨ps, hPA.old ps hps, hpid, hnd⟩, by rw [flushT1_ids]; exact hn⟩
@@ -104,5 +141,6 @@ theorem op_flush {G : Ghost} {s : St} {tb : Tbl} (h : Inv G s) (hL : Link G tb) 
       · rw [hnd] at hd; cases hd
     · exact hfreshE
     · show 0 < tb.epoch + 1; omega
+    · exact htb'
 
 end Banyan.C04
